@@ -25,7 +25,7 @@ REQUIRED_PROBES = ["get_spans", "filllower"]
 REQUIRED_FEATURES = ["window:anchored", "window:disjoint", "window:overlap", "window:nested",
                      "window:overlap:T", "window:nested:T", "window:disjoint:T", "spans:edge-on-empty-row",
                      "file:legacy-int32-offset-index", "file:legacy-int32-offset-index:nnz^2>=2^31",
-                     "file:pixel-stored-as-two-records"]
+                     "file:pixel-stored-as-two-records", "spelling:slice-below-axis", "spelling:slice-beyond-end"]
 
 PATS = ["dense", "sparse30", "sparse70", "emptyrows", "nodiag", "diag", "fullrow", "lastrow", "isolated",
         "sparse05", "empty", "emptyrows"]
@@ -278,8 +278,11 @@ def one_matrix(ctx, cid, rng, n, pat, symm, nsample, legacy=None):
 def spell_axis(rng, a, b, n):
     """Alternative spellings of range [a,b) on an axis of length n -> list of index objects."""
     outs = []
-    starts = [a] + ([None] if a == 0 else []) + ([a - n] if 0 <= a < n else [])
+    # bounds beyond the axis denote what they denote for arrays: clipped to the axis (F34)
+    starts = [a] + ([None, -n - int(rng.integers(1, 9))] if a == 0 else []) + ([a - n] if 0 <= a < n else [])
     stops = [b] + ([None] if b == n else []) + ([b - n] if 0 <= b < n else [])
+    if b == n and rng.random() < 0.3:
+        stops.append(n + int(rng.integers(1, 9)))
     for s in starts:
         for t in stops:
             outs.append(slice(s, t))
@@ -334,6 +337,20 @@ def run_spell(ctx, shard):
                         for sj in spell_axis(rng, x, y, n)[:3] + spell_axis(rng, x, y, n)[-1:]:
                             st = list(stores)[nq % len(stores)]
                             sel = stores[st].matrix(balance=False, sparse=(nq % 5 == 0))
+                            if any(isinstance(v_, int) and v_ > n for v_ in (getattr(si, "stop", 0), getattr(sj, "stop", 0))):
+                                # a stop beyond the axis: arrays clip it.  One mechanism, one key (known finding F36)
+                                c.feature("spelling:slice-beyond-end")
+                                try:
+                                    got = sel[si, sj]
+                                    got = got.toarray() if nq % 5 == 0 else got
+                                    okb = got.shape == ref.shape and np.array_equal(got, ref)
+                                except Exception:  # noqa
+                                    okb = False
+                                nq += 1
+                                if not okb:
+                                    c.fail("slice-bound-beyond-axis-not-clipped", f"matrix[{si!r}, {sj!r}] via {st} != "
+                                           f"full[{a}:{b},{x}:{y}]", {"n": n})
+                                continue
                             got = sel[si, sj]
                             if nq % 5 == 0:
                                 got = got.toarray()
@@ -341,6 +358,8 @@ def run_spell(ctx, shard):
                             c.feature(f"store:{st}")
                             if isinstance(si, slice) and isinstance(sj, slice):
                                 kind = "slice"
+                                if any(isinstance(v_, int) and v_ < -n for v_ in (si.start, si.stop, sj.start, sj.stop)):
+                                    kind = "slice-below-axis"
                             else:
                                 kind = "scalar"
                             c.feature(f"spelling:{kind}")
